@@ -4,6 +4,7 @@ import json, sys
 pid, wt = sys.argv[1], sys.argv[2]
 round2 = len(sys.argv) > 3 and sys.argv[3] == "round2"
 round3 = len(sys.argv) > 3 and sys.argv[3] == "round3"
+round4 = len(sys.argv) > 3 and sys.argv[3] == "round4"
 p = next(json.loads(l) for l in open('/verif/properties.jsonl') if json.loads(l)['id'] == pid)
 ROUND3 = ("ROUND 3 NOTE: two earlier rounds have already tried the single line that implements the rule, simple module interactions, "
  "boundary sizes and the common optional switches. Look for DEEPER changes now: (a) a slip that only matters for a state-dependent numerical "
@@ -14,6 +15,15 @@ ROUND3 = ("ROUND 3 NOTE: two earlier rounds have already tried the single line t
  "call on the same object, a call after a caught exception, an object shared between two runs, a deep-vs-shallow copy; (d) two edits in different "
  "functions that are each harmless alone and only break the property together; (e) an arithmetic slip that is invisible for the symmetric / "
  "equal-strength / power-of-two / Hermitian inputs the tests use. Avoid changes that most ordinary inputs would expose. Number your outputs k = 5, 6.")
+ROUND4 = ("ROUND 4 NOTE: three earlier rounds have tried the rule's own line, module interactions, boundary sizes, optional switches, "
+ "state-dependent numerical branches, rare input forms and reused objects. Look for what is LEFT: (i) code reached only through a rarely used "
+ "public entry point or keyword (pool branches of sampling, pad / rotate / to_mps / custom constructors, observables built from strings, "
+ "helper methods of result objects, keyword options of run functions, circuit-library utilities); (ii) an off-by-one at the END of a loop "
+ "over sites, bonds, layers or time steps that only matters for the last element or for chains of length 2 or 3; (iii) a complex-conjugation "
+ "or transpose slip that is invisible for real-valued or symmetric data; (iv) a changed tolerance or threshold constant, or absolute where "
+ "relative is meant (or the reverse); (v) caching or memoisation keyed too coarsely, or a default argument evaluated once; (vi) a dtype slip "
+ "(a complex value cast to float, integer division, an in-place operation on a view of the caller's array); (vii) two edits in different "
+ "files that are each harmless alone. Avoid changes that most ordinary inputs would expose. Number your outputs k = 7, 8.")
 print(f"""You are testing how robust a Python library is against subtle regressions. The library is munich-quantum-toolkit/yaqs (a tensor-network
 quantum simulator: MPS/MPO, TDVP, Tensor Jump Method, noisy circuits, equivalence checking). You have your OWN scratch git worktree of it at
 {wt} (detached HEAD). Work ONLY inside that directory; never touch /repo or /verif (do not read /verif either).
@@ -41,9 +51,9 @@ violated; it should print what it observed) that FAILS (exit 1) with the change 
 (`git stash` / `git stash pop`, or `git diff > patch; git checkout -- .`). Make the demo's pass/fail margin robust (no flaky randomness; fix seeds or
 enumerate outcomes).
 
-{("ROUND 2 NOTE: the most obvious spots (the single line that directly implements the rule) have been tried already. Prefer less obvious mechanisms: interactions between two modules, boundary sizes (chain length 1-2, first/last site, a single time step, one trajectory/shot), rarely used options (trunc_mode=" + repr("relative") + ", sample_timesteps=False, get_state=True, evolution_mode BUG, order 1 vs 2, MCWF/Lindblad solvers, parallel vs serial path, sample_layers, reversed gate orientation, long-range gates/processes, physical dimension 3), state left behind on reused objects, and helper functions that the anchored code calls. Number your outputs k = 3, 4 instead of 1, 2.") if round2 else ""}{ROUND3 if round3 else ""}
+{("ROUND 2 NOTE: the most obvious spots (the single line that directly implements the rule) have been tried already. Prefer less obvious mechanisms: interactions between two modules, boundary sizes (chain length 1-2, first/last site, a single time step, one trajectory/shot), rarely used options (trunc_mode=" + repr("relative") + ", sample_timesteps=False, get_state=True, evolution_mode BUG, order 1 vs 2, MCWF/Lindblad solvers, parallel vs serial path, sample_layers, reversed gate orientation, long-range gates/processes, physical dimension 3), state left behind on reused objects, and helper functions that the anchored code calls. Number your outputs k = 3, 4 instead of 1, 2.") if round2 else ""}{ROUND3 if round3 else ""}{ROUND4 if round4 else ""}
 
-Deliver, for k = {"5, 6" if round3 else ("3, 4" if round2 else "1, 2")}, the files  {wt}/seed_out/{p['id']}_k/patch.diff  (output of `git diff` for that change alone, applicable with `git apply`
+Deliver, for k = {"7, 8" if round4 else "5, 6" if round3 else ("3, 4" if round2 else "1, 2")}, the files  {wt}/seed_out/{p['id']}_k/patch.diff  (output of `git diff` for that change alone, applicable with `git apply`
 from the repository root),  {wt}/seed_out/{p['id']}_k/demo.py,  and  {wt}/seed_out/{p['id']}_k/meta.json  with keys: property, title (one line),
 what_changed, needs_to_manifest (what specific input/sequence/schedule triggers it), why_tests_miss_it, commands_run (the exact commands and their
 observed results: suite summary line with the change, demo exit code with and without the change).
